@@ -257,6 +257,21 @@ fn promise_program(c: &mut mwv_core::choice::Choices) -> Vec<Sx> {
     read_all(&src).expect("promise template parses")
 }
 
+/// Nests of procedures in which variables of enclosing procedures are read through the various
+/// spellings a reference can take (quasiquote element, dotted tail, vector, let initialiser,
+/// nested thunk, cond clause): the scope skeletons of C02 with a random spelling.
+fn scoped_reference_case(ctx: &Ctx, bytes: &[u8]) -> Outcome {
+    use mwv_core::skeleton::{decode, Bounds, REF_STYLES};
+    let mut c = mwv_core::choice::Choices::new(bytes);
+    let b = Bounds { max_levels: 3, names: 2, modes: 5, actions: 4 };
+    let mut sk = decode(&mut |n| c.below(n), &b);
+    sk.ref_style = 1 + c.below(REF_STYLES.len() - 1);
+    let forms = sk.program();
+    let mut feats = std::collections::BTreeSet::new();
+    feats.insert("enclosing-variable-read-through-quasiquote-let-or-thunk");
+    check_session(ctx, "C01", &forms, &feats, &|_, _| true)
+}
+
 fn promise_case(ctx: &Ctx, bytes: &[u8]) -> Outcome {
     let mut c = mwv_core::choice::Choices::new(bytes);
     let forms = promise_program(&mut c);
@@ -273,7 +288,7 @@ impl Prop for C01 {
         Some(("program", 20_000, 1536))
     }
     fn rule(&self) -> &'static str {
-        "sessions of 1-8 top-level forms from the typed program generator (definitions, type-preserving redefinitions, global set!, expressions over all core and derived forms, apply/eval/higher-order use), each run in the reference interpreter and in three VMs (fresh, second fresh, polluted with unrelated definitions); plus activation histories (a maker procedure with formals (), (a), (a . r) or r whose instances close over internal definitions / let / parameter state, created and operated on in a random interleaving, and a recursive procedure that reads its own internal definition after the recursive call returned), and promises forced re-entrantly and repeatedly. Non-trivial: the reference run calls at least one user-defined procedure and the session uses >= 2 different special/derived forms; distinct by program text."
+        "sessions of 1-8 top-level forms from the typed program generator (definitions, type-preserving redefinitions, global set!, expressions over all core and derived forms, apply/eval/higher-order use), each run in the reference interpreter and in three VMs (fresh, second fresh, polluted with unrelated definitions); plus activation histories (a maker procedure with formals (), (a), (a . r) or r whose instances close over internal definitions / let / parameter state, created and operated on in a random interleaving, and a recursive procedure that reads its own internal definition after the recursive call returned), promises forced re-entrantly and repeatedly, and nests of procedures that read enclosing variables through quasiquote templates, let initialisers, thunks and cond clauses. Non-trivial: the reference run calls at least one user-defined procedure and the session uses >= 2 different special/derived forms; distinct by program text."
     }
     fn assumptions(&self) -> Vec<&'static str> {
         vec![
@@ -288,6 +303,8 @@ impl Prop for C01 {
         ctx.run_bytes("session", cases, 1536, case);
         let acts = ctx.tier.pick(60u32, 1_500u32);
         ctx.run_bytes("activation", acts, 48, activation_case);
+        let refs = ctx.tier.pick(40u32, 1_500u32);
+        ctx.run_bytes("scoped-reference", refs, 48, scoped_reference_case);
         let proms = ctx.tier.pick(20u32, 300u32);
         ctx.run_bytes("promise", proms, 12, promise_case);
     }
@@ -301,6 +318,7 @@ impl Prop for C01 {
                 check_forms(ctx, &forms, &Default::default())
             }
             "activation" => activation_case(ctx, &unhex(payload["bytes"].as_str().unwrap_or(""))),
+            "scoped-reference" => scoped_reference_case(ctx, &unhex(payload["bytes"].as_str().unwrap_or(""))),
             "promise" => promise_case(ctx, &unhex(payload["bytes"].as_str().unwrap_or(""))),
             _ => case(ctx, &unhex(payload["bytes"].as_str().unwrap_or(""))),
         }
